@@ -27,7 +27,7 @@ EXPLANATION = ('Layer 1: every registered binary rule is attempted on every orde
 FUNCTIONS = ['AlgebraicReductionRule.apply', 'IdentityRule.apply', 'HomothetyRule.apply', 'AbstractBinaryRule.check', 'InverseBinaryRule.check', 'BINARY_RULE_REGISTRY and every registered rule (table layer)',
              'CompositionOperator.reduce (layer 3)']
 BOUNDS = {'quick': 'layer 2: chains of length 2-3 over 40 codes (26 kinds + scalar/identity on 7 structures) and chains X, p, q, Y[, Z] of length 4-5 over a 13-code alphabet where p @ q is a vanishing pattern, scalar values in -3..3; layer 3: all real chains of length 2-3 and all real chains X @ (vanishing pair) @ Y [@ Z]',
-          'thorough': 'layer 2: chains of length <= 4; layer 3: real chains of length <= 4'}
+          'thorough': 'quick tier + all symbolic chains of length 4 over the 13-code alphabet; layer 3: real chains of length <= 4'}
 STUBS = ['rules.HomothetyOperator / IdentityOperator / jnp / BINARY_RULE_REGISTRY bound to table-driven stubs inside the CrossHair run (the driver code itself is the real one)']
 ASSUMPTIONS = ['chains longer than the bound are outside the claim', 'identities produced by a rule mid-scan are not required to be removed (the property does not demand it)']
 RULE = 'case = CrossHair run for one first code (all chains with that head), or one batch of real chains; non-trivial = the batch contains reducible chains; distinct keys'
@@ -38,10 +38,13 @@ CASE_TIMEOUT = {'quick': 600, 'thorough': 2400}
 def cases(tier, seed):
     from ..ch import c07_model as M
     n = M.NK + 2 * M.NS
-    maxlen = 3 if tier == 'quick' else 4
+    maxlen = 3
     out = [('table',)]
-    out += [('real', first, maxlen) for first in range(M.NK + 2)]
+    out += [('real', first, maxlen if tier == 'quick' else 4) for first in range(M.NK + 2)]
     out += [('ch', first, maxlen) for first in range(n)]
+    if tier == 'thorough':
+        # all chains of length 4 over the 13-code alphabet (plain symbolic chains, no structure imposed)
+        out += [('ch-small4', first, 4) for first in _small_alphabet(M)]
     # one step deeper over the small alphabet of kinds that take part in annihilating / regenerating patterns
     small = _small_alphabet(M)
     out += [('ch-small', first, maxlen + 1) for first in small]
@@ -108,7 +111,10 @@ def run_case(key, twin=False):
         return ok(sample=dict(note='mutant not found', out=out[-300:]))
     _, first, maxlen = key
     per = 240 if maxlen <= 3 else 1500
-    if key[0] == 'ch-small':
+    if key[0] == 'ch-small4':
+        per = 1500
+        out, dt = _crosshair(first, 4, per, allowed=_small_alphabet(M), minlen=4)
+    elif key[0] == 'ch-small':
         per = 500
         out, dt = _crosshair(first, maxlen + 1, per, allowed=_small_alphabet(M), minlen=maxlen, nested=True)
     else:
@@ -265,7 +271,7 @@ def _real_nested(M, first):
 
 def extra_coverage(results):
     return dict(real_chains_reduced=sum(r.get('real_chains', 0) for r in results),
-                crosshair_runs_confirmed=sum(1 for r in results if r['status'] == 'ok' and isinstance(r['key'], (list, tuple)) and r['key'][0] in ('ch', 'ch-small')))
+                crosshair_runs_confirmed=sum(1 for r in results if r['status'] == 'ok' and isinstance(r['key'], (list, tuple)) and r['key'][0] in ('ch', 'ch-small', 'ch-small4')))
 
 
 def replay(key, model, info):
